@@ -100,6 +100,11 @@ const agg2BodyRaw = `if useIter {
 			retVal = reuse
 		{{if .VV -}}
 		case toReuse:
+			if bd, ok := b.(DenseTensor); ok && bd == reuse {
+				// the destination is the second operand, and the first one is about to be copied over it: work from a copy of b
+				cloned := b.Clone().(Tensor)
+				dataB, bit = cloned.hdr(), cloned.Iterator()
+			}
 			storage.CopyIter(typ,dataReuse, dataA, iit, ait)
 			ait.Reset()
 			iit.Reset()
@@ -288,6 +293,12 @@ const agg2CmpBodyRaw = `// check to see if anything needs to be created
 	switch {
 		case !safe && same && reuse == nil:
 			err = e.E.{{.Name}}Same(typ, dataA, dataB)
+		{{if not .VV -}}
+		if t.Shape().IsScalarEquiv() && !leftTensor {
+			// both sides hold a single element: the kernel wrote into the scalar's buffer, not into the tensor
+			storage.Copy(typ, dataB, dataA)
+		}
+		{{end -}}
 			retVal = a
 		{{if .VV -}}
 		case same && safe && reuse != nil:
@@ -318,7 +329,7 @@ const agg2CmpBodyRaw = `// check to see if anything needs to be created
 `
 
 const agg2MinMaxBodyRaw = `// check to see if anything needs to be created
-	if reuse == nil{
+	if reuse == nil && safe {
 		{{if .VV -}}
 		if swap{
 			reuse = NewDense(b.Dtype(), b.Shape().Clone(), WithEngine(e))
@@ -342,6 +353,11 @@ const agg2MinMaxBodyRaw = `// check to see if anything needs to be created
 			retVal = a
 		{{if .VV -}}
 		case  safe && reuse != nil:
+			if bd, ok := b.(DenseTensor); ok && bd == reuse {
+				// the destination is the second operand, and the first one is about to be copied over it: work from a copy of b
+				cloned := b.Clone().(Tensor)
+				dataB, bit = cloned.hdr(), cloned.Iterator()
+			}
 			storage.CopyIter(typ,dataReuse,dataA, iit, ait)
 			ait.Reset()
 			iit.Reset()
@@ -395,9 +411,19 @@ const agg2MinMaxBodyRaw = `// check to see if anything needs to be created
 	switch {
 		case !safe  && reuse == nil:
 			err = e.E.{{.Name}}(typ, dataA, dataB)
+		{{if not .VV -}}
+		if t.Shape().IsScalarEquiv() && !leftTensor {
+			// both sides hold a single element: the kernel wrote into the scalar's buffer, not into the tensor
+			storage.Copy(typ, dataB, dataA)
+		}
+		{{end -}}
 			retVal = a
 		{{if .VV -}}
 		case  safe && reuse != nil:
+			if bd, ok := b.(DenseTensor); ok && bd == reuse {
+			// the destination is the second operand, and the first one is about to be copied over it: work from a copy of b
+			dataB = b.Clone().(Tensor).hdr()
+		}
 			storage.Copy(typ,dataReuse,dataA)
 			err = e.E.{{.Name}}(typ, dataReuse, dataB)
 			retVal = reuse
